@@ -58,7 +58,7 @@ pub fn gen_pair(r: &mut Rng, quick: bool) -> PairSpec {
 	};
 	let slice = if len > 0 && r.chance(0.4) {
 		let s = r.below(len as u64) as usize;
-		Some((s, r.usize_in(s, len)))
+		Some((s, if r.chance(0.3) { len } else { r.usize_in(s, len) }))
 	} else {
 		None
 	};
@@ -145,7 +145,13 @@ pub fn run_pair(p: &PairSpec, r: &mut Rng, n_callbacks: usize) -> Result<Outcome
 	let (dec, _obs) = ScriptedDecoder::new(frames.clone(), DecoderScript { sample_rate: p.sr, packets: p.packets.clone(), seek_granularity: p.seek_gran, ..Default::default() });
 	let mut ddata = StreamingSoundData::from_decoder(dec).with_settings(dst);
 	if let Some((a, b)) = p.slice {
-		ddata = ddata.slice(region(a, b));
+		// (given directly, or by a second `.slice()` replacing an earlier one - open-ended when it ends at the end of the data)
+		ddata = match (a + b + p.len) % 3 {
+			0 => ddata.slice(region(a, b)),
+			1 => ddata.slice(region(a / 2, b / 2 + 1)).slice(region(a, b)),
+			_ if b == p.len => ddata.slice(region(a / 2, b / 2 + 1)).slice(Region { start: PlaybackPosition::Samples(a), end: EndPosition::EndOfAudio }),
+			_ => ddata.slice(region(b / 3, b)).slice(region(a, b)),
+		};
 	}
 	let (mut ssound, mut sh) = sdata.into_sound().map_err(|_| "static into_sound failed".to_string())?;
 	let (mut dsound, mut dh) = ddata.into_sound().map_err(|e| format!("streaming into_sound failed: {}", e))?;
